@@ -12,7 +12,8 @@ def run(tier, seed):
     g = gen.Gen(seed * 7919 + 4)
     progs = []
     for i in range(n):
-        p = g.program({"nstrat": g.rng.choice([1, 2, 2, 3]), "requests": False, "p_post": 0.1, "state_rates": False})
+        p = g.program({"nstrat": g.rng.choice([1, 2, 2, 3]), "requests": False, "p_post": 0.1, "state_rates": False,
+                       "post_import": 0.3})
         if not any(o["op"] == "strat" for o in p["ops"]):
             continue
         progs.append(p)
